@@ -55,6 +55,16 @@ EXPLANATION = (
     "in _do_query (_got_results, _query_failed), and in _got_results only behind the DeferredList of the per-share processing "
     "(a direct call only where the update was found stopped) - so no early exit (fast path, timer, early retirement) can end a "
     "check / repair mapupdate while an asked server has not answered, whose late answer would be dropped. "
+    "(11) shape-independent provenance of the per-version share count: the ServerMap queries are evaluated symbolically from "
+    "self._known_shares (helper methods are followed, a loop that files per-share values under the version via DictOfSets.add / "
+    "setdefault(..).add|append / defaultdict gives a per-version collection, statement loops, comprehensions and dict comprehensions "
+    "over a per-version dict are equivalent forms, every test inside a per-version loop must be 'count vs k' or 'seqnum vs highest "
+    "recoverable seqnum'): element 0 of shares_available()[v] - which feeds count-shares-good and, in the refactored shape, the "
+    "classifiers - is len() of a SET of share numbers (a list of share numbers, or a set of (shnum, server, ..) placements, is a "
+    "violation), recoverable_versions() / unrecoverable_versions() evaluate to exactly the versions with k <= count / count < k, the "
+    "bound of unrecoverable_newer_versions() is the maximum seqnum over exactly the recoverable versions with a default <= 0, and every "
+    "version with count < k above it is kept.  When a query is no longer a statement loop over make_versionmap().items() the loop-shaped "
+    "clauses of (1)/(7) hand over to this evaluation; if it cannot follow the code either, the result is ANALYSIS-ERROR. "
     "Undecided: post-repair share counts / placement beyond update_goal() being run (what update_goal chooses, whether the "
     "writes succeed, that get_results reports success unconditionally), an unrecoverable version with the same seqnum as the best one, "
     "the completion policy of the bounded modes (MODE_READ / MODE_WRITE / MODE_ANYTHING), that a query is always answered or "
@@ -64,7 +74,7 @@ EXPLANATION = (
     "FIXED FINDING (C14.8, construct allmydata.mutable.checker:MutableCheckAndRepairer, repo commit 08c5e2f): SERVERMAP_MODE was "
     "MODE_WRITE, a bounded search (N+k initial servers, stops after k empty servers past the last share), so check_and_repair() "
     "reported 'Healthy' and started no repair while another version sat on servers beyond the boundary; it now maps in MODE_REPAIR.")
-TECHNIQUE = "static analysis: CFG x abstract-state monitor (constant propagation over branch facts), must-precede gates, Deferred chain order, who-may-call"
+TECHNIQUE = "static analysis: CFG x abstract-state monitor (constant propagation over branch facts), must-precede gates, Deferred chain order, who-may-call, symbolic evaluation of the servermap queries through helper calls"
 
 CHK = "mutable.checker:MutableChecker"
 CAR = "mutable.checker:MutableCheckAndRepairer"
@@ -710,6 +720,702 @@ def _must_query_is_everyone(idx, r, full):
     return good - bad
 
 
+# ---- symbolic evaluation of the ServerMap version queries (C14.11) ------------------------------------------------
+# The value of a no-argument ServerMap query is computed symbolically, by role: `self._known_shares` is the one
+# source, helper calls self.m() are followed, a loop that files per-share values under the version (DictOfSets.add /
+# setdefault(..).add|append / defaultdict) gives a per-version collection, a loop or comprehension over a per-version
+# dict gives per-version values / a filtered set of versions.  Every test inside a per-version loop has to be a
+# function of the "world" of the version - (k <= distinct ? , seqnum above the highest recoverable seqnum ?) -
+# otherwise the evaluation is undecided (fail closed).
+class _Undecided(Exception):
+    pass
+
+
+A_SERVER, A_SHNUM, A_VER, A_TS = ("server",), ("shnum",), ("ver",), ("ts",)
+KSH = ("known_shares",)
+W_ALL = frozenset((c, n) for c in ("ge", "lt") for n in (True, False))
+W_GE = frozenset(w for w in W_ALL if w[0] == "ge")
+W_LT = W_ALL - W_GE
+W_NEWER = frozenset(w for w in W_ALL if w[1])
+_EMPTY_CALLS = {"set": "set", "list": "list", "dict": "dict", "DictOfSets": "dos"}
+_ORD = {ast.GtE: ">=", ast.Lt: "<", ast.Gt: ">", ast.LtE: "<="}
+_FLIP = {">=": "<=", "<=": ">=", "<": ">", ">": "<"}
+
+
+def _describe(v):
+    if v == A_SHNUM:
+        return "share numbers"
+    if v == A_SERVER:
+        return "servers"
+    if v == A_VER:
+        return "versions"
+    if v == A_TS:
+        return "timestamps"
+    if v[0] == "tuple":
+        return "(%s) tuples" % ", ".join(_describe(x).rstrip("s") if x[0] != "tuple" else _describe(x) for x in v[1])
+    return str(v[-1])
+
+
+class _SMEval:
+    def __init__(self, idx):
+        self.idx = idx
+        self.memo = {}
+        self.active = []
+        self.problems = []          # (fn, node, message)
+        self._pseen = set()
+
+    def problem(self, fn, node, msg):
+        key = (fn.qual, id(node), msg)
+        if key not in self._pseen:
+            self._pseen.add(key)
+            self.problems.append((fn, node, msg))
+
+    def und(self, fn, node, what):
+        raise _Undecided("%s %s: %s is not followed" % (short(fn), fn.loc(node) if node is not None else "", what))
+
+    # -- methods
+    def method(self, name):
+        if name in self.memo:
+            v = self.memo[name]
+            if isinstance(v, _Undecided):
+                raise v
+            return v
+        if name in self.active:
+            raise _Undecided("ServerMap.%s is recursive" % name)
+        try:
+            fn = self.idx.func(SMAP + "." + name)
+        except AnchorVanished:
+            raise _Undecided("ServerMap.%s is not a method of the class" % name)
+        self.active.append(name)
+        try:
+            v = self.run_fn(fn)
+        except _Undecided as e:
+            self.memo[name] = e
+            raise
+        finally:
+            self.active.pop()
+        self.memo[name] = v
+        return v
+
+    def decided(self, name):
+        try:
+            self.method(name)
+            return True
+        except _Undecided:
+            return False
+
+    def run_fn(self, fn):
+        if len(fn.params) != 1 or fn.node.args.vararg or fn.node.args.kwarg:
+            self.und(fn, None, "a query that takes arguments")
+        env = {}
+        for st in fn.node.body:
+            if isinstance(st, ast.Expr) and isinstance(st.value, ast.Constant):
+                continue
+            if isinstance(st, ast.Pass):
+                continue
+            if isinstance(st, ast.Return):
+                if st.value is None:
+                    self.und(fn, st, "a bare return")
+                return self.ev(fn, st.value, env)
+            if isinstance(st, ast.Assign) and len(st.targets) == 1 and isinstance(st.targets[0], (ast.Name, ast.Tuple, ast.List)):
+                self.bind(fn, st.targets[0], self.ev(fn, st.value, env), env)
+            elif isinstance(st, ast.For) and not st.orelse:
+                self.loop(fn, st, env)
+            else:
+                self.und(fn, st, "the statement %s" % src(fn, st).split("\n")[0])
+        self.und(fn, None, "a query without a final return")
+
+    # -- values
+    def bind(self, fn, tg, val, env):
+        if isinstance(tg, ast.Name):
+            env[tg.id] = val
+            return
+        if isinstance(tg, (ast.Tuple, ast.List)) and not any(isinstance(e, ast.Starred) for e in tg.elts):
+            if val == A_VER:
+                for i, t in enumerate(tg.elts):
+                    self.bind(fn, t, ("verfield", i), env)
+                return
+            if val[0] == "tuple" and len(val[1]) == len(tg.elts):
+                for t, v in zip(tg.elts, val[1]):
+                    self.bind(fn, t, v, env)
+                return
+            if val[0] == "opaque":
+                for t in tg.elts:
+                    self.bind(fn, t, ("opaque", "a part of " + val[1]), env)
+                return
+        self.und(fn, tg, "the binding of %s" % src(fn, tg))
+
+    def iterable(self, fn, node, v):
+        """(element, worlds | None, level): what iterating over the value yields."""
+        if v[0] == "iter":
+            return v[1:]
+        if v[0] == "pv":
+            return (A_VER, W_ALL, "version")
+        if v[0] == "pvf":
+            return (A_VER, v[1], "version")
+        if v[0] == "verset":
+            return (A_VER, v[1], "version")
+        if v[0] == "coll":
+            return (v[2], None, "inner")
+        if v == KSH:
+            return (("tuple", (A_SERVER, A_SHNUM)), None, "share")
+        self.und(fn, node, "iteration over %s" % src(fn, node))
+
+    def ev(self, fn, e, env):
+        if isinstance(e, ast.Name):
+            return env.get(e.id, ("opaque", e.id))
+        if isinstance(e, ast.Constant):
+            return ("const", e.value)
+        if isinstance(e, ast.UnaryOp) and isinstance(e.op, ast.USub) and isinstance(e.operand, ast.Constant) \
+                and isinstance(e.operand.value, int):
+            return ("const", -e.operand.value)
+        if isinstance(e, ast.Attribute):
+            if attr_path(e) == "self._known_shares":
+                return KSH
+            return ("opaque", src(fn, e))
+        if isinstance(e, ast.Tuple):
+            return ("tuple", tuple(self.ev(fn, x, env) for x in e.elts))
+        if isinstance(e, (ast.List, ast.Set)) and not e.elts:
+            return ("empty", "list" if isinstance(e, ast.List) else "set")
+        if isinstance(e, ast.Dict) and not e.keys:
+            return ("empty", "dict")
+        if isinstance(e, ast.Subscript):
+            v = self.ev(fn, e.value, env)
+            i = e.slice
+            if isinstance(i, ast.Constant) and isinstance(i.value, int) and not isinstance(i.value, bool) and i.value >= 0:
+                if v == A_VER:
+                    return ("verfield", i.value)
+                if v[0] == "tuple" and i.value < len(v[1]):
+                    return v[1][i.value]
+            elif v[0] == "pv" and self.ev(fn, i, env) == A_VER:
+                return v[1]
+            return ("opaque", src(fn, e))
+        if isinstance(e, ast.Call):
+            return self.ev_call(fn, e, env)
+        if isinstance(e, (ast.ListComp, ast.SetComp, ast.GeneratorExp, ast.DictComp)):
+            return self.ev_comp(fn, e, env)
+        return ("opaque", src(fn, e))
+
+    def ev_call(self, fn, e, env):
+        f = e.func
+        plain = not e.keywords and not any(isinstance(a, ast.Starred) for a in e.args)
+        if isinstance(f, ast.Attribute) and isinstance(f.value, ast.Name) and f.value.id == fn.params[0] and plain and not e.args:
+            return self.method(f.attr)
+        if isinstance(f, ast.Attribute) and f.attr in ("items", "keys", "values") and plain and not e.args:
+            v = self.ev(fn, f.value, env)
+            if v[0] in ("pv", "pvf"):
+                W = W_ALL if v[0] == "pv" else v[1]
+                V = v[-1]
+                el = {"items": ("tuple", (A_VER, V)), "keys": A_VER, "values": V}[f.attr]
+                return ("iter", el, W, "version")
+            if v == KSH:
+                k, val = ("tuple", (A_SERVER, A_SHNUM)), ("tuple", (A_VER, A_TS))
+                return ("iter", {"items": ("tuple", (k, val)), "keys": k, "values": val}[f.attr], None, "share")
+            return ("opaque", src(fn, e))
+        name = f.id if isinstance(f, ast.Name) else (f.attr if isinstance(f, ast.Attribute) else None)
+        if name in _EMPTY_CALLS and plain and not e.args:
+            return ("empty", _EMPTY_CALLS[name])
+        if name == "defaultdict" and plain and len(e.args) == 1 and isinstance(e.args[0], ast.Name) and e.args[0].id in ("set", "list"):
+            return ("empty", "dd-" + e.args[0].id)
+        if isinstance(f, ast.Name) and plain and len(e.args) == 1:
+            a = self.ev(fn, e.args[0], env)
+            if f.id in ("list", "tuple", "sorted"):
+                if a[0] in ("iter", "coll", "verset", "seqs"):
+                    return a
+                if a[0] in ("pv", "pvf"):
+                    return ("verset", W_ALL if a[0] == "pv" else a[1])
+            if f.id in ("set", "frozenset"):
+                if a[0] == "coll":
+                    return ("coll", True, a[2])
+                if a[0] == "verset":
+                    return a
+                if a[0] in ("pv", "pvf"):
+                    return ("verset", W_ALL if a[0] == "pv" else a[1])
+                if a[0] == "iter" and a[3] == "version" and a[1] == A_VER:
+                    return ("verset", a[2])
+            if f.id == "len":
+                if a[0] == "coll":
+                    if a[1] and a[2] == A_SHNUM:
+                        return ("count", "distinct")
+                    return ("count", "instances", "the number of elements of a %s of %s" % (
+                        "set" if a[1] else "list", _describe(a[2])))
+                if a[0] == "empty":
+                    return ("count", "instances", "the size of a collection that nothing is put into")
+        if isinstance(f, ast.Name) and f.id == "max" and len(e.args) == 1 and not isinstance(e.args[0], ast.Starred):
+            a = self.ev(fn, e.args[0], env)
+            d = [k for k in e.keywords if k.arg == "default"]
+            if a[0] == "seqs" and len(d) == 1 and len(e.keywords) == 1:
+                c = self.ev(fn, d[0].value, env)
+                if c[0] == "const" and isinstance(c[1], int):
+                    return ("maxseq", a[1], c[1])
+        return ("opaque", src(fn, e))
+
+    def ev_comp(self, fn, e, env):
+        if len(e.generators) != 1 or e.generators[0].is_async:
+            return ("opaque", src(fn, e))
+        g = e.generators[0]
+        el, W, level = self.iterable(fn, g.iter, self.ev(fn, g.iter, env))
+        env2 = dict(env)
+        self.bind(fn, g.target, el, env2)
+        if level == "version":
+            for c in g.ifs:
+                W = W & self.truthset(fn, c, env2)
+            if isinstance(e, ast.DictComp):
+                if self.ev(fn, e.key, env2) != A_VER:
+                    self.und(fn, e, "a dict keyed by %s" % src(fn, e.key))
+                V = self.ev(fn, e.value, env2)
+                return ("pv", V) if W == W_ALL else ("pvf", W, V)
+            x = self.ev(fn, e.elt, env2)
+            if x == A_VER:
+                return ("verset", W)
+            if x == ("verfield", 0):
+                return ("seqs", W)
+            self.und(fn, e, "a collection of %s per version" % src(fn, e.elt))
+        if level == "inner":
+            if g.ifs or isinstance(e, ast.DictComp):
+                self.und(fn, e, "a filtered / keyed selection of a version's shares")
+            x = self.ev(fn, e.elt, env2)
+            return ("coll", True if isinstance(e, ast.SetComp) else (x == el and self._coll_distinct(fn, g.iter, env)), x)
+        self.und(fn, e, "a comprehension over all known shares")
+
+    def _coll_distinct(self, fn, it, env):
+        v = self.ev(fn, it, env)
+        return v[0] == "coll" and v[1]
+
+    # -- tests inside a per-version context
+    def truthset(self, fn, t, env):
+        if isinstance(t, ast.UnaryOp) and isinstance(t.op, ast.Not):
+            return W_ALL - self.truthset(fn, t.operand, env)
+        if isinstance(t, ast.BoolOp):
+            sets = [self.truthset(fn, x, env) for x in t.values]
+            out = sets[0]
+            for s in sets[1:]:
+                out = (out & s) if isinstance(t.op, ast.And) else (out | s)
+            return out
+        if isinstance(t, ast.Compare) and len(t.ops) == 1 and type(t.ops[0]) in _ORD:
+            op = _ORD[type(t.ops[0])]
+            l, r_ = self.ev(fn, t.left, env), self.ev(fn, t.comparators[0], env)
+            if r_[0] == "count" or l[0] == "maxseq":
+                l, r_, op = r_, l, _FLIP[op]
+            if l[0] == "count":             # count OP k
+                if r_[0] != "verfield":
+                    self.und(fn, t, "the comparison of a share count with %s" % src(fn, t))
+                if r_[1] != 5:
+                    self.problem(fn, t, "%s compares the share count of a version with field %d of the verinfo, not with k (field 5)" % (
+                        src(fn, t), r_[1]))
+                if l[1] != "distinct":
+                    self.problem(fn, t, "%s decides whether a version is recoverable from %s, which is not the number of DISTINCT share "
+                                 "numbers among the version's shares (a share number held by two servers must count once)" % (src(fn, t), l[2]))
+                if op in (">", "<="):
+                    self.problem(fn, t, "%s does not separate the versions with k <= distinct shares from those with distinct < k "
+                                 "(a version with exactly k distinct shares is recoverable)" % src(fn, t))
+                return W_GE if op in (">=", ">") else W_LT
+            if l == ("verfield", 0) and r_[0] == "maxseq":      # seqnum OP highest recoverable seqnum
+                if r_[1] != W_GE:
+                    self.problem(fn, t, "%s compares the seqnum with a bound that is the highest seqnum of versions %s, not of exactly "
+                                 "the recoverable ones: an unrecoverable newer version can hide itself or another one" % (
+                                     src(fn, t), _worlds_txt(r_[1])))
+                if r_[2] > 0:
+                    self.problem(fn, t, "the highest recoverable seqnum defaults to %d, which is not below every sequence number" % r_[2])
+                return W_NEWER if op in (">", ">=") else (W_ALL - W_NEWER)
+        self.und(fn, t, "the test %s (neither 'distinct share count vs k' nor 'seqnum vs highest recoverable seqnum')" % src(fn, t))
+
+    # -- loops
+    def _grouping(self, fn, c, env):
+        """`c` files a per-share value under the version: (dict name, collection kind, value expr) or None."""
+        f = c.func
+        if not isinstance(f, ast.Attribute) or c.keywords:
+            return None
+        rv = f.value
+        if f.attr == "add" and len(c.args) == 2 and isinstance(rv, ast.Name) and env.get(rv.id) == ("empty", "dos"):
+            return (rv.id, "set", c.args[0], c.args[1])
+        if f.attr in ("add", "append") and len(c.args) == 1:
+            kind = "set" if f.attr == "add" else "list"
+            if isinstance(rv, ast.Call) and isinstance(rv.func, ast.Attribute) and rv.func.attr == "setdefault" and len(rv.args) == 2 \
+                    and not rv.keywords and isinstance(rv.func.value, ast.Name) \
+                    and env.get(rv.func.value.id) in (("empty", "dict"), ("empty", "dos")) \
+                    and self.ev(fn, rv.args[1], env) == ("empty", kind):
+                return (rv.func.value.id, kind, rv.args[0], c.args[0])
+            if isinstance(rv, ast.Subscript) and isinstance(rv.value, ast.Name) and env.get(rv.value.id) == ("empty", "dd-" + kind):
+                return (rv.value.id, kind, rv.slice, c.args[0])
+        return None
+
+    def loop(self, fn, st, env):
+        el, W, level = self.iterable(fn, st.iter, self.ev(fn, st.iter, env))
+        if level == "share":
+            loc = dict(env)
+            self.bind(fn, st.target, el, loc)
+            done = {}
+            for s in st.body:
+                if isinstance(s, ast.Pass):
+                    continue
+                if isinstance(s, ast.Assign) and len(s.targets) == 1 and isinstance(s.targets[0], (ast.Tuple, ast.List)):
+                    self.bind(fn, s.targets[0], self.ev(fn, s.value, loc), loc)
+                    continue
+                g = self._grouping(fn, s.value, loc) if isinstance(s, ast.Expr) and isinstance(s.value, ast.Call) else None
+                if g is None or g[0] in done or self.ev(fn, g[2], loc) != A_VER:
+                    self.und(fn, s, "the statement %s in a loop over all known shares" % src(fn, s).split("\n")[0])
+                done[g[0]] = ("pv", ("coll", g[1] == "set", self.ev(fn, g[3], loc)))
+            env.update(done)
+            return
+        if level != "version":
+            self.und(fn, st, "a loop over %s" % src(fn, st.iter))
+        outer = {n for (n, v) in env.items() if v[0] in ("empty", "const")}     # what the loop may accumulate into
+        effects = []            # (name, kind, payload, worlds)
+        start = dict(env)
+        self.bind(fn, st.target, el, start)
+        self.block(fn, st.body, W, start, outer, effects)
+        by = {}
+        for (nm, kind, payload, w) in effects:
+            by.setdefault(nm, []).append((kind, payload, w))
+        for nm, effs in by.items():
+            kinds = {k for (k, _p, _w) in effs}
+            inc = frozenset().union(*[w for (_k, _p, w) in effs])
+            pay = {p for (_k, p, _w) in effs}
+            if len(kinds) != 1 or len(pay) != 1:
+                self.und(fn, st, "the different things the loop does to %s" % nm)
+            kind, p = kinds.pop(), pay.pop()
+            if kind == "store":
+                env[nm] = ("pv", p) if inc == W_ALL else ("pvf", inc, p)
+            elif kind == "add":
+                env[nm] = ("verset", inc)
+            else:
+                env[nm] = ("maxseq", inc, p)
+
+    def block(self, fn, stmts, W, env, outer, effects):
+        """Execute the statements for the versions of the worlds W; returns the states [(W, env)] that fall through."""
+        states = [(W, env)]
+        for s in stmts:
+            nxt = []
+            for (w, e) in states:
+                nxt.extend(self.stmt(fn, s, w, e, outer, effects))
+            states = nxt
+        return states
+
+    def _max_idiom(self, fn, s, env, outer):
+        """``if seqnum > H: H = seqnum`` (H a running maximum that outlives the loop): (H, its initial constant) or None."""
+        t = s.test
+        if s.orelse or len(s.body) != 1 or not (isinstance(t, ast.Compare) and len(t.ops) == 1 and type(t.ops[0]) in _ORD):
+            return None
+        b = s.body[0]
+        if not (isinstance(b, ast.Assign) and len(b.targets) == 1 and isinstance(b.targets[0], ast.Name) and b.targets[0].id in outer):
+            return None
+        h = b.targets[0].id
+        cur = env.get(h)
+        if not (cur is not None and cur[0] == "const" and isinstance(cur[1], int)) or self.ev(fn, b.value, env) != ("verfield", 0):
+            return None
+        op, l, r_ = _ORD[type(t.ops[0])], t.left, t.comparators[0]
+        if isinstance(l, ast.Name) and l.id == h:
+            op, l, r_ = _FLIP[op], r_, l
+        if op in (">", ">=") and isinstance(r_, ast.Name) and r_.id == h and self.ev(fn, l, env) == ("verfield", 0):
+            return (h, cur[1])
+        return None
+
+    def stmt(self, fn, s, W, env, outer, effects):
+        if isinstance(s, ast.Pass) or (isinstance(s, ast.Expr) and isinstance(s.value, ast.Constant)):
+            return [(W, env)]
+        if isinstance(s, ast.Continue):
+            return []
+        if isinstance(s, ast.If):
+            acc = self._max_idiom(fn, s, env, outer)
+            if acc is not None:
+                effects.append((acc[0], "max", acc[1], W))
+                return [(W, env)]
+            T = self.truthset(fn, s.test, env)
+            out = []
+            if W & T:
+                out.extend(self.block(fn, s.body, W & T, dict(env), outer, effects))
+            if W - T:
+                out.extend(self.block(fn, s.orelse, W - T, dict(env), outer, effects))
+            return out
+        if isinstance(s, ast.Assign) and len(s.targets) == 1:
+            tg = s.targets[0]
+            if isinstance(tg, ast.Name) and tg.id in outer:
+                v = s.value
+                cur = env.get(tg.id)
+                if isinstance(v, ast.Call) and isinstance(v.func, ast.Name) and v.func.id == "max" and len(v.args) == 2 and not v.keywords \
+                        and cur is not None and cur[0] == "const" and isinstance(cur[1], int):
+                    others = [a for a in v.args if not (isinstance(a, ast.Name) and a.id == tg.id)]
+                    if len(others) == 1 and self.ev(fn, others[0], env) == ("verfield", 0):
+                        effects.append((tg.id, "max", cur[1], W))
+                        return [(W, env)]
+                self.und(fn, s, "the update %s of a variable that outlives the loop" % src(fn, s))
+            if isinstance(tg, (ast.Name, ast.Tuple, ast.List)):
+                env = dict(env)
+                self.bind(fn, tg, self.ev(fn, s.value, env), env)
+                return [(W, env)]
+            if isinstance(tg, ast.Subscript) and isinstance(tg.value, ast.Name) and tg.value.id in outer \
+                    and env.get(tg.value.id) == ("empty", "dict") and self.ev(fn, tg.slice, env) == A_VER:
+                effects.append((tg.value.id, "store", self.ev(fn, s.value, env), W))
+                return [(W, env)]
+        if isinstance(s, ast.Expr) and isinstance(s.value, ast.Call):
+            c = s.value
+            f = c.func
+            if isinstance(f, ast.Attribute) and isinstance(f.value, ast.Name) and f.attr in ("add", "append") and len(c.args) == 1 \
+                    and not c.keywords and f.value.id in outer and self.ev(fn, c.args[0], env) == A_VER \
+                    and env.get(f.value.id) == ("empty", "set" if f.attr == "add" else "list"):
+                effects.append((f.value.id, "add", None, W))
+                return [(W, env)]
+            if not any(isinstance(x, ast.Name) and isinstance(x.ctx, ast.Load) and env.get(x.id, ("opaque",))[0] != "opaque"
+                       and env.get(x.id) not in (A_VER, A_SHNUM, A_SERVER, A_TS) and env.get(x.id)[0] not in ("verfield", "count", "const")
+                       for x in ast.walk(c)):
+                return [(W, env)]       # a call that touches none of the collections that are built (e.g. logging)
+        if isinstance(s, ast.For) and not s.orelse:
+            el, _w, level = self.iterable(fn, s.iter, self.ev(fn, s.iter, env))
+            if level == "inner":
+                loc = dict(env)
+                self.bind(fn, s.target, el, loc)
+                env = dict(env)
+                filled = set()
+                for b in s.body:
+                    if isinstance(b, ast.Pass):
+                        continue
+                    c = b.value if isinstance(b, ast.Expr) and isinstance(b.value, ast.Call) else None
+                    f = c.func if c is not None else None
+                    if not (isinstance(f, ast.Attribute) and isinstance(f.value, ast.Name) and f.attr in ("add", "append")
+                            and len(c.args) == 1 and not c.keywords and f.value.id not in outer and f.value.id not in filled
+                            and env.get(f.value.id) == ("empty", "set" if f.attr == "add" else "list")):
+                        self.und(fn, b, "the statement %s in a loop over a version's shares" % src(fn, b).split("\n")[0])
+                    filled.add(f.value.id)
+                    env[f.value.id] = ("coll", f.attr == "add", self.ev(fn, c.args[0], loc))
+                return [(W, env)]
+        self.und(fn, s, "the statement %s in a loop over the versions" % src(fn, s).split("\n")[0])
+
+
+def _worlds_txt(W):
+    cls = {c for (c, _n) in W}
+    if cls == {"ge", "lt"}:
+        return "of either class (k <= distinct as well as distinct < k)"
+    if cls == {"lt"}:
+        return "with fewer than k distinct shares"
+    if cls == {"ge"}:
+        return "with at least k distinct shares"
+    return "of no class"
+
+
+_SM_CACHE = {}
+
+
+def _sm_eval(idx):
+    if id(idx) not in _SM_CACHE:
+        _SM_CACHE.clear()
+        _SM_CACHE[id(idx)] = (idx, _SMEval(idx))
+    return _SM_CACHE[id(idx)][1]
+
+
+def _legacy_or_symbolic(idx, r, mname, nsites, check, *args):
+    """Run the loop-shaped check of ServerMap.<mname>.  When the method is no longer written as a statement loop over
+    self.make_versionmap().items() (anchor vanished), the clause is left to the symbolic evaluation of C14.11 - provided that
+    one does decide the method; otherwise the anchor error stands (fail closed)."""
+    try:
+        check(*args)
+    except AnchorVanished:
+        if not _sm_eval(idx).decided(mname):
+            raise
+        fn = idx.func(SMAP + "." + mname)
+        for _ in range(nsites):
+            r.site(fn, None, "not loop-shaped: decided by the symbolic evaluation of C14.11")
+
+
+def _shares_available_loop(idx, r):
+    sa = idx.func(SMAP + ".shares_available")
+    sn_ = FlowNorm(sa)
+    _sacfg, sa_head, _sa_v, sa_shares = _versionmap_loop(sa, sn_)
+    k = 0
+    for n in sa.cfg().nodes:
+        a = n.ast
+        if n.kind == "stmt" and isinstance(a, ast.Assign) and len(a.targets) == 1 and isinstance(a.targets[0], ast.Subscript) \
+                and isinstance(a.value, ast.Tuple) and len(a.value.elts) == 3:
+            k += 1
+            r.site(sa, a, "(distinct shares, k, N)")
+            e0 = a.value.elts[0]
+            ok0 = isinstance(e0, ast.Call) and call_name(e0) == "len" and len(e0.args) == 1
+            if ok0:
+                x = e0.args[0]
+                if isinstance(x, ast.Name):
+                    ds = [d for d in all_defs(sa).get(x.id, [])]
+                    ok0 = bool(ds) and all(isinstance(d, (ast.SetComp,)) or (isinstance(d, ast.Call) and call_name(d) == "set") for d in ds)
+                    # what goes into the set is the share number of the version's shares: component 0 of the loop
+                    # target of a loop over the shares of this version (the local is found by that role, not by name)
+                    adds = [c for c in calls_in_func(sa, "add") if attr_path(c.func.value) == x.id]
+                    fors = [y for y in ast.walk(sa_head.ast) if isinstance(y, ast.For) and y is not sa_head.ast
+                            and isinstance(y.iter, ast.Name) and y.iter.id == sa_shares]
+                    for c in adds:
+                        host = [f for f in fors if any(z is c for z in ast.walk(f))]
+                        ok0 = ok0 and len(c.args) == 1 and bool(host) and _item0_of(host[0].target, c.args[0])
+                    if any(isinstance(d, ast.Call) and call_name(d) == "set" and not d.args for d in ds) and not adds:
+                        ok0 = False      # an empty set that nothing is added to: every version would count 0 good shares
+                else:
+                    ok0 = isinstance(x, (ast.SetComp,)) or (isinstance(x, ast.Call) and call_name(x) == "set")
+            r.require(ok0, sa, sa.loc(a), "good-share count %s is not the number of distinct share numbers" % src(sa, e0))
+            nn = sn_.norm(n, a.value.elts[2])
+            kk = sn_.norm(n, a.value.elts[1])
+            r.require(re.match(r"^\w+\[6\]$", nn) is not None and re.match(r"^\w+\[5\]$", kk) is not None, sa, sa.loc(a),
+                      "(k, N) reported are (%s, %s), not fields 5 and 6 of the version" % (kk, nn))
+    if not k:
+        raise AnchorVanished("shares_available tuple store")
+
+
+def _class_loop(idx, r, mname, want, other):
+    fn = idx.func(SMAP + "." + mname)
+    fnorm = FlowNorm(fn)
+    cfg, head, vname, sname = _versionmap_loop(fn, fnorm)
+    kstr, tests = _recoverability_tests(r, fn, fnorm, cfg, head, vname, sname)
+    R = _returned_name(fn, cfg)
+    if not any(_adds_to(n, R, vname) for n in cfg.nodes):
+        raise AnchorVanished("%s.add(%s) in %s" % (R, vname, mname))
+
+    def step(n, lab, st, _f=fnorm, _t=tests, _k=kstr, _R=R, _v=vname):
+        cls, added = st
+        cls = _cls_step(_f, _t, _k, n, lab, cls)
+        if cls is None:
+            return None
+        if n.kind == "stmt" and _adds_to(n, _R, _v):
+            added = True
+        return (cls, added)
+    visited, parent, back = _loop_iterations(cfg, head, ("?", False), step)
+    r.count(len(visited))
+    for (nid, st) in visited:
+        if st != "start" and cfg.nodes[nid].kind == "exit":
+            raise AnalysisError("%s leaves its version loop early (%s)" % (mname, witness(cfg, parent, (nid, st)).brief()))
+    seen = set()
+    for ((cls, added), w) in back:
+        if added and cls != want and ("add", cls) not in seen:
+            seen.add(("add", cls))
+            r.violation(fn, fn.loc(head.ast), "%s() includes a version although %s (path: %s)" % (mname, CLS_TXT[cls], w.brief()), w)
+        if not added and cls in (want, "mixed") and ("skip", cls) not in seen:
+            seen.add(("skip", cls))
+            r.violation(fn, fn.loc(head.ast), "%s() leaves a version out although %s (path: %s)" % (mname, CLS_TXT[cls], w.brief()), w)
+
+
+def _newer_versions_loops(idx, r):
+    fn = idx.func(SMAP + ".unrecoverable_newer_versions")
+    fnorm = FlowNorm(fn)
+    cfg, head, vname, sname = _versionmap_loop(fn, fnorm)
+    kstr, tests = _recoverability_tests(r, fn, fnorm, cfg, head, vname, sname)
+    D = _returned_name(fn, cfg)
+    # second loop: the one whose body stores D[v2]
+    body_of = {}
+    for h in cfg.nodes:
+        if h.kind == "iter" and h is not head:
+            vis, _p, _b = _loop_iterations(cfg, h, 0, lambda n, lab, st: st)
+            body_of[h.id] = {nid for (nid, st) in vis if st != "start"}
+
+    def d_store(n, item):
+        a = n.ast
+        return n.kind == "stmt" and isinstance(a, ast.Assign) and len(a.targets) == 1 and isinstance(a.targets[0], ast.Subscript) \
+            and attr_path(a.targets[0].value) == D and isinstance(a.targets[0].slice, ast.Name) and a.targets[0].slice.id == item
+    head2 = None
+    for h in cfg.nodes:
+        if h.id in body_of and isinstance(h.ast.target, ast.Name) and any(d_store(cfg.nodes[i], h.ast.target.id) for i in body_of[h.id]):
+            head2 = h
+    if head2 is None:
+        raise AnchorVanished("loop that fills the returned dict %s in unrecoverable_newer_versions" % D)
+    v2 = head2.ast.target.id
+    U = _strip_wrappers(head2.ast.iter)
+    if not isinstance(U, ast.Name):
+        raise AnchorVanished("collection of unrecoverable versions iterated in unrecoverable_newer_versions")
+    U = U.id
+    vis1, _p1, _b1 = _loop_iterations(cfg, head, 0, lambda n, lab, st: st)
+    body1 = {nid for (nid, st) in vis1 if st != "start" and nid != head.id}
+    stored1 = set()
+    for i in body1:
+        stored1 |= {x for x in node_stores(cfg.nodes[i]) if re.match(r"^\w+$", x)}
+    read2 = set()
+    for i in body_of[head2.id]:
+        m = cfg.nodes[i]
+        if m.kind == "test":
+            read2 |= {x.id for x in ast.walk(m.ast) if isinstance(x, ast.Name)}
+    stored2 = set()
+    for i in body_of[head2.id]:
+        stored2 |= node_stores(cfg.nodes[i])
+    hs = (stored1 & read2) - stored2 - {vname, sname, v2}     # carried over, not a per-iteration local of the second loop
+    if len(hs) != 1:
+        raise AnchorVanished("the highest recoverable seqnum carried from the classification loop to the newer-than test (candidates %s)" % sorted(hs))
+    H = hs.pop()
+    V0, S2 = "%s[0]" % vname, "%s[0]" % v2
+    r.site(fn, head2.ast, "newer-than loop over %s against %s" % (U, H))
+
+    def h_store_ok(n):
+        v = assign_value(n, H)
+        if v is None:
+            return False
+        if fnorm.norm(n, v) == V0:
+            return True
+        if isinstance(v, ast.Call) and call_name(v) == "max" and len(v.args) == 2 and not v.keywords:
+            return sorted(fnorm.norm(n, a) for a in v.args) == sorted([H, V0])
+        return False
+
+    def step1(n, lab, st):
+        cls, added, hbad = st
+        cls = _cls_step(fnorm, tests, kstr, n, lab, cls)
+        if cls is None:
+            return None
+        if n.kind == "stmt" and _adds_to(n, U, vname):
+            added = True
+        if n.kind in ("stmt", "iter", "with") and H in node_stores(n):
+            if not (n.kind == "stmt" and h_store_ok(n)):
+                hbad = "value"
+            elif cls != "ge":
+                hbad = hbad or "class"
+        return (cls, added, hbad)
+    if not any(_adds_to(n, U, vname) for n in cfg.nodes):
+        raise AnchorVanished("%s.add(%s) in unrecoverable_newer_versions" % (U, vname))
+    visited, parent, back = _loop_iterations(cfg, head, ("?", False, ""), step1)
+    r.count(len(visited))
+    for (nid, st) in visited:
+        if st != "start" and cfg.nodes[nid].kind == "exit":
+            raise AnalysisError("unrecoverable_newer_versions leaves its version loop early")
+    seen = set()
+    for ((cls, added, hbad), w) in back:
+        if not added and cls in ("lt", "mixed") and ("skip", cls) not in seen:
+            seen.add(("skip", cls))
+            r.violation(fn, fn.loc(head.ast), "unrecoverable_newer_versions() does not consider a version unrecoverable although %s: "
+                        "repair without force would not refuse to discard it (path: %s)" % (CLS_TXT[cls], w.brief()), w)
+        if not added and cls == "?" and not tests and "untested" not in seen:
+            seen.add("untested")
+            r.violation(fn, fn.loc(head.ast), "unrecoverable_newer_versions() never compares a version's distinct share count with k")
+        if hbad == "value" and "hv" not in seen:
+            seen.add("hv")
+            r.violation(fn, fn.loc(head.ast), "%s is set to something other than max(%s, seqnum of the version) (path: %s)" % (H, H, w.brief()), w)
+        if hbad == "class" and "hc" not in seen:
+            seen.add("hc")
+            r.violation(fn, fn.loc(head.ast), "%s is raised by a version of which %s: a newer unrecoverable version would hide itself "
+                        "or another one from the newer-than test (path: %s)" % (H, CLS_TXT[cls], w.brief()), w)
+    # H elsewhere: only constants below every seqnum
+    for n in cfg.nodes:
+        if n.id in body1 or H not in node_stores(n):
+            continue
+        v = assign_value(n, H) if n.kind == "stmt" else None
+        try:
+            c = ast.literal_eval(v) if v is not None else None
+        except (ValueError, TypeError, SyntaxError):
+            c = None
+        r.require(isinstance(c, int) and not isinstance(c, bool) and c <= 0, fn, fn.loc(n.ast),
+                  "%s is set to %s outside the classification loop: it must start below every sequence number and only grow with "
+                  "recoverable versions" % (H, src(fn, v) if v is not None else "an opaque value"))
+
+    def step2(n, lab, st):
+        gated, stored = st
+        if n.kind == "test" and isinstance(lab, tuple):
+            op, l, rr = _fact(fnorm, n, lab)
+            if (op, l, rr) in (("<=", S2, H), ("<", S2, H)) or (op == "==" and {l, rr} == {S2, H}):
+                gated = True
+        if d_store(n, v2):
+            stored = True
+        return (gated, stored)
+    visited, parent, back = _loop_iterations(cfg, head2, (False, False), step2)
+    r.count(len(visited))
+    for (nid, st) in visited:
+        if st != "start" and cfg.nodes[nid].kind == "exit":
+            raise AnalysisError("unrecoverable_newer_versions leaves its second loop early")
+    for ((gated, stored), w) in back:
+        if not stored and not gated:
+            r.violation(fn, fn.loc(head2.ast), "an unrecoverable version is left out of unrecoverable_newer_versions() without its seqnum "
+                        "having been found <= the highest recoverable seqnum %s (path: %s)" % (H, w.brief()), w)
+            break
+
+
 def run(ctx: Context):
     idx = ctx.idx
     cg = get_callgraph(idx)
@@ -840,42 +1546,7 @@ def run(ctx: Context):
             got = cn.norm(n, a.value)
             r.require(got == "%s.shares_available()[%s][%d]" % (cp[0], cp[1], i), cs, cs.loc(a),
                       "%s is %s, not element %d of shares_available()[version]" % (key, got, i))
-        sa = idx.func(SMAP + ".shares_available")
-        sn_ = FlowNorm(sa)
-        _sacfg, sa_head, _sa_v, sa_shares = _versionmap_loop(sa, sn_)
-        k = 0
-        for n in sa.cfg().nodes:
-            a = n.ast
-            if n.kind == "stmt" and isinstance(a, ast.Assign) and len(a.targets) == 1 and isinstance(a.targets[0], ast.Subscript) \
-                    and isinstance(a.value, ast.Tuple) and len(a.value.elts) == 3:
-                k += 1
-                r.site(sa, a, "(distinct shares, k, N)")
-                e0 = a.value.elts[0]
-                ok0 = isinstance(e0, ast.Call) and call_name(e0) == "len" and len(e0.args) == 1
-                if ok0:
-                    x = e0.args[0]
-                    if isinstance(x, ast.Name):
-                        ds = [d for d in all_defs(sa).get(x.id, [])]
-                        ok0 = bool(ds) and all(isinstance(d, (ast.SetComp,)) or (isinstance(d, ast.Call) and call_name(d) == "set") for d in ds)
-                        # what goes into the set is the share number of the version's shares: component 0 of the loop
-                        # target of a loop over the shares of this version (the local is found by that role, not by name)
-                        adds = [c for c in calls_in_func(sa, "add") if attr_path(c.func.value) == x.id]
-                        fors = [y for y in ast.walk(sa_head.ast) if isinstance(y, ast.For) and y is not sa_head.ast
-                                and isinstance(y.iter, ast.Name) and y.iter.id == sa_shares]
-                        for c in adds:
-                            host = [f for f in fors if any(z is c for z in ast.walk(f))]
-                            ok0 = ok0 and len(c.args) == 1 and bool(host) and _item0_of(host[0].target, c.args[0])
-                        if any(isinstance(d, ast.Call) and call_name(d) == "set" and not d.args for d in ds) and not adds:
-                            ok0 = False      # an empty set that nothing is added to: every version would count 0 good shares
-                    else:
-                        ok0 = isinstance(x, (ast.SetComp,)) or (isinstance(x, ast.Call) and call_name(x) == "set")
-                r.require(ok0, sa, sa.loc(a), "good-share count %s is not the number of distinct share numbers" % src(sa, e0))
-                nn = sn_.norm(n, a.value.elts[2])
-                kk = sn_.norm(n, a.value.elts[1])
-                r.require(re.match(r"^\w+\[6\]$", nn) is not None and re.match(r"^\w+\[5\]$", kk) is not None, sa, sa.loc(a),
-                          "(k, N) reported are (%s, %s), not fields 5 and 6 of the version" % (kk, nn))
-        if not k:
-            raise AnchorVanished("shares_available tuple store")
+        _legacy_or_symbolic(idx, r, "shares_available", 1, _shares_available_loop, idx, r)
 
     # -- 2. need_repair ------------------------------------------------------------
     with ctx.rule("C14.2", "R3/E3", "_got_mapupdate_results leaves need_repair unset only with no unrecoverable version, exactly "
@@ -1450,162 +2121,10 @@ def run(ctx: Context):
 
         # (b) recoverable_versions / unrecoverable_versions: exactly the class
         for (mname, want, other) in (("recoverable_versions", "ge", "lt"), ("unrecoverable_versions", "lt", "ge")):
-            fn = idx.func(SMAP + "." + mname)
-            fnorm = FlowNorm(fn)
-            cfg, head, vname, sname = _versionmap_loop(fn, fnorm)
-            kstr, tests = _recoverability_tests(r, fn, fnorm, cfg, head, vname, sname)
-            R = _returned_name(fn, cfg)
-            if not any(_adds_to(n, R, vname) for n in cfg.nodes):
-                raise AnchorVanished("%s.add(%s) in %s" % (R, vname, mname))
-
-            def step(n, lab, st, _f=fnorm, _t=tests, _k=kstr, _R=R, _v=vname):
-                cls, added = st
-                cls = _cls_step(_f, _t, _k, n, lab, cls)
-                if cls is None:
-                    return None
-                if n.kind == "stmt" and _adds_to(n, _R, _v):
-                    added = True
-                return (cls, added)
-            visited, parent, back = _loop_iterations(cfg, head, ("?", False), step)
-            r.count(len(visited))
-            for (nid, st) in visited:
-                if st != "start" and cfg.nodes[nid].kind == "exit":
-                    raise AnalysisError("%s leaves its version loop early (%s)" % (mname, witness(cfg, parent, (nid, st)).brief()))
-            seen = set()
-            for ((cls, added), w) in back:
-                if added and cls != want and ("add", cls) not in seen:
-                    seen.add(("add", cls))
-                    r.violation(fn, fn.loc(head.ast), "%s() includes a version although %s (path: %s)" % (mname, CLS_TXT[cls], w.brief()), w)
-                if not added and cls in (want, "mixed") and ("skip", cls) not in seen:
-                    seen.add(("skip", cls))
-                    r.violation(fn, fn.loc(head.ast), "%s() leaves a version out although %s (path: %s)" % (mname, CLS_TXT[cls], w.brief()), w)
+            _legacy_or_symbolic(idx, r, mname, 1, _class_loop, idx, r, mname, want, other)
 
         # (c) unrecoverable_newer_versions
-        fn = idx.func(SMAP + ".unrecoverable_newer_versions")
-        fnorm = FlowNorm(fn)
-        cfg, head, vname, sname = _versionmap_loop(fn, fnorm)
-        kstr, tests = _recoverability_tests(r, fn, fnorm, cfg, head, vname, sname)
-        D = _returned_name(fn, cfg)
-        # second loop: the one whose body stores D[v2]
-        body_of = {}
-        for h in cfg.nodes:
-            if h.kind == "iter" and h is not head:
-                vis, _p, _b = _loop_iterations(cfg, h, 0, lambda n, lab, st: st)
-                body_of[h.id] = {nid for (nid, st) in vis if st != "start"}
-
-        def d_store(n, item):
-            a = n.ast
-            return n.kind == "stmt" and isinstance(a, ast.Assign) and len(a.targets) == 1 and isinstance(a.targets[0], ast.Subscript) \
-                and attr_path(a.targets[0].value) == D and isinstance(a.targets[0].slice, ast.Name) and a.targets[0].slice.id == item
-        head2 = None
-        for h in cfg.nodes:
-            if h.id in body_of and isinstance(h.ast.target, ast.Name) and any(d_store(cfg.nodes[i], h.ast.target.id) for i in body_of[h.id]):
-                head2 = h
-        if head2 is None:
-            raise AnchorVanished("loop that fills the returned dict %s in unrecoverable_newer_versions" % D)
-        v2 = head2.ast.target.id
-        U = _strip_wrappers(head2.ast.iter)
-        if not isinstance(U, ast.Name):
-            raise AnchorVanished("collection of unrecoverable versions iterated in unrecoverable_newer_versions")
-        U = U.id
-        vis1, _p1, _b1 = _loop_iterations(cfg, head, 0, lambda n, lab, st: st)
-        body1 = {nid for (nid, st) in vis1 if st != "start" and nid != head.id}
-        stored1 = set()
-        for i in body1:
-            stored1 |= {x for x in node_stores(cfg.nodes[i]) if re.match(r"^\w+$", x)}
-        read2 = set()
-        for i in body_of[head2.id]:
-            m = cfg.nodes[i]
-            if m.kind == "test":
-                read2 |= {x.id for x in ast.walk(m.ast) if isinstance(x, ast.Name)}
-        stored2 = set()
-        for i in body_of[head2.id]:
-            stored2 |= node_stores(cfg.nodes[i])
-        hs = (stored1 & read2) - stored2 - {vname, sname, v2}     # carried over, not a per-iteration local of the second loop
-        if len(hs) != 1:
-            raise AnchorVanished("the highest recoverable seqnum carried from the classification loop to the newer-than test (candidates %s)" % sorted(hs))
-        H = hs.pop()
-        V0, S2 = "%s[0]" % vname, "%s[0]" % v2
-        r.site(fn, head2.ast, "newer-than loop over %s against %s" % (U, H))
-
-        def h_store_ok(n):
-            v = assign_value(n, H)
-            if v is None:
-                return False
-            if fnorm.norm(n, v) == V0:
-                return True
-            if isinstance(v, ast.Call) and call_name(v) == "max" and len(v.args) == 2 and not v.keywords:
-                return sorted(fnorm.norm(n, a) for a in v.args) == sorted([H, V0])
-            return False
-
-        def step1(n, lab, st):
-            cls, added, hbad = st
-            cls = _cls_step(fnorm, tests, kstr, n, lab, cls)
-            if cls is None:
-                return None
-            if n.kind == "stmt" and _adds_to(n, U, vname):
-                added = True
-            if n.kind in ("stmt", "iter", "with") and H in node_stores(n):
-                if not (n.kind == "stmt" and h_store_ok(n)):
-                    hbad = "value"
-                elif cls != "ge":
-                    hbad = hbad or "class"
-            return (cls, added, hbad)
-        if not any(_adds_to(n, U, vname) for n in cfg.nodes):
-            raise AnchorVanished("%s.add(%s) in unrecoverable_newer_versions" % (U, vname))
-        visited, parent, back = _loop_iterations(cfg, head, ("?", False, ""), step1)
-        r.count(len(visited))
-        for (nid, st) in visited:
-            if st != "start" and cfg.nodes[nid].kind == "exit":
-                raise AnalysisError("unrecoverable_newer_versions leaves its version loop early")
-        seen = set()
-        for ((cls, added, hbad), w) in back:
-            if not added and cls in ("lt", "mixed") and ("skip", cls) not in seen:
-                seen.add(("skip", cls))
-                r.violation(fn, fn.loc(head.ast), "unrecoverable_newer_versions() does not consider a version unrecoverable although %s: "
-                            "repair without force would not refuse to discard it (path: %s)" % (CLS_TXT[cls], w.brief()), w)
-            if not added and cls == "?" and not tests and "untested" not in seen:
-                seen.add("untested")
-                r.violation(fn, fn.loc(head.ast), "unrecoverable_newer_versions() never compares a version's distinct share count with k")
-            if hbad == "value" and "hv" not in seen:
-                seen.add("hv")
-                r.violation(fn, fn.loc(head.ast), "%s is set to something other than max(%s, seqnum of the version) (path: %s)" % (H, H, w.brief()), w)
-            if hbad == "class" and "hc" not in seen:
-                seen.add("hc")
-                r.violation(fn, fn.loc(head.ast), "%s is raised by a version of which %s: a newer unrecoverable version would hide itself "
-                            "or another one from the newer-than test (path: %s)" % (H, CLS_TXT[cls], w.brief()), w)
-        # H elsewhere: only constants below every seqnum
-        for n in cfg.nodes:
-            if n.id in body1 or H not in node_stores(n):
-                continue
-            v = assign_value(n, H) if n.kind == "stmt" else None
-            try:
-                c = ast.literal_eval(v) if v is not None else None
-            except (ValueError, TypeError, SyntaxError):
-                c = None
-            r.require(isinstance(c, int) and not isinstance(c, bool) and c <= 0, fn, fn.loc(n.ast),
-                      "%s is set to %s outside the classification loop: it must start below every sequence number and only grow with "
-                      "recoverable versions" % (H, src(fn, v) if v is not None else "an opaque value"))
-
-        def step2(n, lab, st):
-            gated, stored = st
-            if n.kind == "test" and isinstance(lab, tuple):
-                op, l, rr = _fact(fnorm, n, lab)
-                if (op, l, rr) in (("<=", S2, H), ("<", S2, H)) or (op == "==" and {l, rr} == {S2, H}):
-                    gated = True
-            if d_store(n, v2):
-                stored = True
-            return (gated, stored)
-        visited, parent, back = _loop_iterations(cfg, head2, (False, False), step2)
-        r.count(len(visited))
-        for (nid, st) in visited:
-            if st != "start" and cfg.nodes[nid].kind == "exit":
-                raise AnalysisError("unrecoverable_newer_versions leaves its second loop early")
-        for ((gated, stored), w) in back:
-            if not stored and not gated:
-                r.violation(fn, fn.loc(head2.ast), "an unrecoverable version is left out of unrecoverable_newer_versions() without its seqnum "
-                            "having been found <= the highest recoverable seqnum %s (path: %s)" % (H, w.brief()), w)
-                break
+        _legacy_or_symbolic(idx, r, "unrecoverable_newer_versions", 2, _newer_versions_loops, idx, r)
 
         # (d) needs_merge
         nm = idx.func(SMAP + ".needs_merge")
@@ -2158,6 +2677,64 @@ def run(ctx: Context):
                 r.violation(gr, gr.loc(t.ast), "_got_results calls %s() directly while the update is running: the server leaves "
                             "_must_query before the shares of its answer have been validated and recorded, so the update can end "
                             "without them (path: %s)" % (nf.name, w.brief()), w)
+
+    # -- 11. where the per-version share count comes from (symbolic, shape-independent) ---------------
+    with ctx.rule("C14.11", "E6/E4", "ServerMap (symbolic evaluation from self._known_shares through helpers, loops, comprehensions, "
+                  "setdefault/DictOfSets accumulation): shares_available()[v][0] is the size of a collection of DISTINCT share numbers; "
+                  "recoverable_versions() / unrecoverable_versions() are exactly the versions with k <= that count / that count < k; "
+                  "unrecoverable_newer_versions() keeps every version with count < k above the highest seqnum of the recoverable ones",
+                  expected=4) as r:
+        sev = _sm_eval(idx)
+        undecided = []
+        vals = {}
+        for mname in ("shares_available", "recoverable_versions", "unrecoverable_versions", "unrecoverable_newer_versions"):
+            fn = idx.func(SMAP + "." + mname)
+            r.site(fn, None, "value of %s()" % mname)
+            try:
+                vals[mname] = sev.method(mname)
+            except _Undecided as e:
+                undecided.append("%s(): %s" % (mname, e))
+        r.count(len(sev.memo))
+        for (pf, node, msg) in sev.problems:
+            r.violation(pf, pf.loc(node), msg)
+        v = vals.get("shares_available")
+        if v is not None:
+            fn = idx.func(SMAP + ".shares_available")
+            if v[0] == "pv" and v[1][0] == "tuple" and len(v[1][1]) == 3:
+                c, kf, nf_ = v[1][1]
+                if c[0] == "count":
+                    r.require(c[1] == "distinct", fn, fn.loc(), "element 0 of shares_available()[version] (the good-share count of the checker, "
+                              "compared with k and N) is %s, not the number of DISTINCT share numbers of the version: a share number held "
+                              "by two servers is counted twice, so a file that lacks a share number is reported healthy and not repaired"
+                              % (c[2] if len(c) > 2 else c[1]))
+                else:
+                    undecided.append("shares_available(): element 0 of the per-version tuple is %s, which is not followed" % (c[-1],))
+                r.require(kf == ("verfield", 5) and nf_ == ("verfield", 6), fn, fn.loc(),
+                          "elements 1 and 2 of shares_available()[version] are not fields 5 and 6 (k, N) of the version")
+            else:
+                undecided.append("shares_available() is not evaluated to a dict of (count, k, N) per version")
+        for (mname, want, txt) in (("recoverable_versions", W_GE, "k <= distinct share numbers"),
+                                   ("unrecoverable_versions", W_LT, "distinct share numbers < k")):
+            v = vals.get(mname)
+            if v is None:
+                continue
+            fn = idx.func(SMAP + "." + mname)
+            if v[0] != "verset":
+                undecided.append("%s() is not evaluated to a set of versions" % mname)
+                continue
+            r.require(not (v[1] - want), fn, fn.loc(), "%s() includes versions %s" % (mname, _worlds_txt(v[1] - want)))
+            r.require(not (want - v[1]), fn, fn.loc(), "%s() leaves out versions %s (it must hold exactly the versions with %s)" % (
+                mname, _worlds_txt(want - v[1]), txt))
+        v = vals.get("unrecoverable_newer_versions")
+        if v is not None:
+            fn = idx.func(SMAP + ".unrecoverable_newer_versions")
+            if v[0] == "pvf":
+                r.require((W_LT & W_NEWER) <= v[1], fn, fn.loc(), "unrecoverable_newer_versions() leaves out a version that has fewer than k "
+                          "distinct shares and a seqnum above the highest recoverable one: repair without force would not refuse to discard it")
+            elif v[0] != "pv":
+                undecided.append("unrecoverable_newer_versions() is not evaluated to a dict keyed by version")
+        if undecided:
+            raise AnalysisError("symbolic evaluation of the ServerMap queries: " + "; ".join(undecided))
 
 
 def call_name_of(e):
